@@ -145,9 +145,13 @@ func compare(t world.TB, f *gen.Func, got any, want []reflect.Value, u refmodel.
 	if k, ok := refmodel.UniqueIdentifiers(f, items); !ok {
 		world.Fail(t, fmt.Sprintf("C02/duplicate-identifier/%s", f.Fn), "%s step %d: identifier %s occurs twice: %v", where, step, k, g)
 	}
-	// ordering: the statement's "ordered by numeric identifier" is asserted after updates that
-	// merge (the store keeps a filter-less replace verbatim; those are sent in order by the generator)
-	if !refmodel.OrderedByLeadingUintKeys(f, items) {
+	// ordering: the statement's "ordered by numeric identifier" is asserted after every restricted
+	// update (the store keeps a filter-less replace verbatim, in whatever order the sender chose -
+	// the generator sends some of them out of order, so that the next restricted update has to sort)
+	if !u.HasFilter() && !refmodel.OrderedByLeadingUintKeys(f, items) {
+		world.Label("full-update/out-of-order")
+	}
+	if u.HasFilter() && !refmodel.OrderedByLeadingUintKeys(f, items) {
 		world.Fail(t, fmt.Sprintf("C02/unordered/%s/%s", sigShape(u.Shape()), f.Fn), "%s step %d: items not ordered by numeric identifier: %v", where, step, refmodel.Multiset(items))
 	}
 }
@@ -170,7 +174,7 @@ func TestFold(t *testing.T) {
 			if i == 0 && rapid.IntRange(0, 2).Draw(t, "seedfull") != 0 {
 				shape = listgen.Full // most histories start from a populated list
 			}
-			u := listgen.Update(t, &f, state, shape, gen.Opt{LooseSelectors: true}, fmt.Sprintf("u%d", i))
+			u := listgen.Update(t, &f, state, shape, gen.Opt{LooseSelectors: true, UnsortedFull: true}, fmt.Sprintf("u%d", i))
 			if u.DeleteSelector.IsValid() {
 				if m := listgen.Matches(u.DeleteSelector, state); m > 1 {
 					world.Label("delete-selector/several-matches")
